@@ -242,6 +242,8 @@ class RealSched:
             elif op == "rm":
                 r = s.remove_node(self.node(int(ws[1])))
                 ret = "crash:None" if r is None else f"crash:{esc(r)}"
+            elif op == "shut":
+                self.node(int(ws[1])).shutdown()
             elif op == "trig":
                 for n in s.nodes:
                     n.shutdown()
@@ -306,6 +308,7 @@ class Walk:
         self.ops: list[str] = []
         self.impl: list[str] = []
         self.steal_out: dict[int, list[int]] = {}
+        self.written_off: list[int] = []          # told to shut down and marked down by the receiver thread; `remove_node` still to come
         self.nextid = 0
         self.tocollect: list[int] = []
         self.collection: list[str] = []
@@ -395,9 +398,17 @@ class Walk:
         if not live:
             return
         n = rng.choice(live)
-        if rng.random() < 0.3:
-            self.do(f"broken {n}")
-        self.do(f"down {n}")
+        if n in self.written_off:
+            self.written_off.remove(n)
+        else:
+            if rng.random() < 0.3:
+                self.do(f"broken {n}")
+            self.do(f"down {n}")
+        self.remove(n)
+
+    def remove(self, n: int) -> None:
+        """the controller handles the death notice of node `n`"""
+        rng = self.rng
         out = self.do(f"rm {n}")
         self.steal_out.pop(n, None)
         if self.real.dead:
@@ -425,6 +436,22 @@ class Walk:
             return True
         if r < self.malformed + self.crash:
             self.crash_one()
+            return True
+        if self.crash > 0 and rng.random() < 0.015:
+            # an undecodable message: the receiver thread tells the worker to shut down and marks it down at once; the death
+            # notice is queued behind events already waiting, so the scheduler keeps running with that node for a while
+            cand = [n._verif_id for n in s.nodes if not n.shutting_down and n._verif_id not in self.steal_out]
+            if cand:
+                n = rng.choice(cand)
+                self.do(f"shut {n}")
+                self.do(f"down {n}")
+                self.written_off.append(n)
+                return True
+        if self.written_off and rng.random() < 0.25:
+            n = self.written_off.pop(0)
+            self.steal_out.pop(n, None)
+            if any(x._verif_id == n for x in s.nodes):
+                self.remove(n)
             return True
         if self.steal_out and self.crash > 0 and rng.random() < 0.06:
             # a worker other than the one that owes a steal answer dies while the request is outstanding
